@@ -571,7 +571,7 @@ def delete_runs_in_the_context_of_the_call(col):
     from glom import Glommer, S
     g = Glommer()
     g.register(_Vault, get=_vault_get)
-    mk = lambda: {'v': _Vault(inner={'x': 1, 'y': 2}, lst=[10, 20, 30]), 'a': {'x': 1, 'y': 2}, 'b': {'x': 3}}
+    mk = lambda: {'v': _Vault(inner={'x': 1, 'y': 2}, lst=[10, 20, 30]), 'a': {'x': 1, 'y': 2}, 'b': {'x': 3}, 'keyname': 'x'}
     cases = [
         # (description, runner, spec, plain Python on a twin, expected error class when plain Python fails)
         ('Glommer, registered type on the parent path (string)', lambda t, sp: g.glom(t, sp), lambda: Delete('v.inner.x'), lambda t: t['v']._cells['inner'].__delitem__('x')),
@@ -579,6 +579,8 @@ def delete_runs_in_the_context_of_the_call(col):
         ('Glommer, registered type behind a star', lambda t, sp: g.glom(t, sp), lambda: Delete(Path(T.__star__(), 'inner', 'y'), ignore_missing=True), lambda t: t['v']._cells['inner'].__delitem__('y')),
         ('segment taken from the scope (S step before)', G, lambda: (S(which='a'), Delete(T[S['which']]['x'])), lambda t: t['a'].__delitem__('x')),
         ('segment taken from the caller scope', lambda t, sp: G(t, sp, scope={'which': 'b'}), lambda: Delete(T[S['which']]['x']), lambda t: t['b'].__delitem__('x')),
+        ('the FINAL segment is computed from the target', G, lambda: Delete(T['a'][T['keyname']]), lambda t: t['a'].__delitem__(t['keyname'])),
+        ('the final segment is computed from the scope', G, lambda: (S(which='y'), Delete(T['a'][S['which']])), lambda t: t['a'].__delitem__('y')),
         ('segment taken from the scope, inside a list spec', G, lambda: ('rows', [(S(k=T['k']), Delete(T['d'][S['k']]['x']))]), None),
     ]
     for desc, runner, mk_spec, py in cases:
@@ -590,7 +592,7 @@ def delete_runs_in_the_context_of_the_call(col):
         else:
             t, w = mk(), mk()
             py(w)
-            read = lambda t: {'v': t['v']._cells, 'a': t['a'], 'b': t['b']}
+            read = lambda t: {'v': t['v']._cells, 'a': t['a'], 'b': t['b'], 'n': len(t)}
         got = call(runner, t, mk_spec())
         col.case(('context-of-the-call', desc), True)
         col.count('successful_deletions')
